@@ -652,6 +652,7 @@ def run(rep):
             rep.disagreement("lex:" + c["key"][:400], "lexer implementation and model differ",
                              {"input": c["key"], "impl1": a1[:2000], "model1": m1[:2000],
                               "impl0": a0[:2000], "model0": m0[:2000]})
+    vlib.huge_token_probe(rep, ("lex",))
 
 
 def replay(r):
